@@ -25,9 +25,26 @@ pub enum Ref {
     PerTick(fn(&Schedule, usize) -> Vec<Vec<Value>>),
 }
 
+/// The adversary the (weakened) input type admits (C32).
+#[derive(Clone, Copy, Debug, PartialEq, Eq)]
+pub enum Adv {
+    /// input order is part of the contract: only tick partitions
+    Fixed,
+    /// NoOrder: every permutation
+    Perm,
+    /// TotalOrder + AtLeastOnce: adjacent (stuttering) duplication
+    Stutter,
+    /// NoOrder + AtLeastOnce: permutation and duplication
+    PermDup,
+    /// keyed, ordered per key: cross-key interleavings
+    KeyInterleave,
+}
+
 pub struct CorpusProg {
     pub spec: ProgSpec,
     pub refs: BTreeMap<String, Ref>,
+    /// per input (C32 micro-programs only)
+    pub adv: Vec<Adv>,
 }
 
 fn dec<T: DeserializeOwned>(v: &[Value]) -> Vec<T> {
@@ -99,6 +116,9 @@ impl B {
                 ty: Ty::parse(ty),
                 kind: kind.clone(),
                 promise: promise.clone(),
+                delay: 0,
+                shift_of: None,
+                slice: vec![],
             });
             refs.insert(oname, r.clone());
         }
@@ -122,8 +142,10 @@ impl B {
                 .collect(),
             outputs,
             traits,
+            locs: vec![],
+            no_run: false,
         };
-        self.progs.push(CorpusProg { spec, refs });
+        self.progs.push(CorpusProg { spec, refs, adv: vec![] });
     }
 }
 
@@ -136,6 +158,7 @@ fn safe(stateful: bool, classes: &[&str]) -> Traits {
         ops: 0,
         shared: false,
         classes: classes.iter().map(|s| s.to_string()).collect(),
+        avoided: vec![],
     }
 }
 fn tickp(cycle: bool, classes: &[&str]) -> Traits {
@@ -147,6 +170,7 @@ fn tickp(cycle: bool, classes: &[&str]) -> Traits {
         ops: 0,
         shared: false,
         classes: classes.iter().map(|s| s.to_string()).collect(),
+        avoided: vec![],
     }
 }
 
@@ -1201,6 +1225,277 @@ pub fn corpus() -> Vec<CorpusProg> {
         ],
         Traits { shared: true, stateful_top: true, ..tickp(false, &["tee", "tick-and-top"]) },
     );
+    trusted(&mut b);
+    // reproducers of confirmed findings
+    b.add(
+        "k_zip_into_stream",
+        &["i64"],
+        &[],
+        &[
+            ("(i64,i64)", Seq, None, Ref::Eventual(|_| enc(vec![(3i64, 4i64)]))),
+            ("i64", Seq, None, Ref::Eventual(|f| enc(ints(f, 0)))),
+        ],
+        safe(true, &["singleton-zip", "bounded-source", "known-finding"]),
+    );
+    b.add(
+        "k_zip_count",
+        &["i64"],
+        &[],
+        &[
+            ("usize", Seq, None, Ref::Eventual(|_| enc(vec![1usize]))),
+            ("i64", Seq, None, Ref::Eventual(|f| enc(ints(f, 0)))),
+        ],
+        safe(true, &["singleton-zip", "count", "bounded-source", "known-finding"]),
+    );
     let _ = json!(null);
     b.progs
+}
+
+fn trust(tick: bool, classes: &[&str]) -> Traits {
+    let mut c: Vec<String> = classes.iter().map(|s| s.to_string()).collect();
+    c.push("trusted".into());
+    Traits { safe: !tick, stateful_top: !tick, cycle_or_defer: false, tick_program: tick, ops: 0, shared: false, classes: c, avoided: vec![] }
+}
+
+fn sorted_map(kv: Vec<(i64, i64)>) -> Vec<(i64, i64)> {
+    let mut v = kv;
+    v.sort();
+    v
+}
+
+/// C32 micro-programs (templates/corpus.rs, prefix x_)
+fn trusted(b: &mut B) {
+    let start = b.progs.len();
+    let mut advs: Vec<Vec<Adv>> = vec![];
+    b.add(
+        "x_max_min_top",
+        &["i64"],
+        &[],
+        &[
+            ("i64", Final, None, Ref::Eventual(|f| enc(ints(f, 0).into_iter().max().into_iter().collect()))),
+            ("i64", Final, None, Ref::Eventual(|f| enc(ints(f, 0).into_iter().min().into_iter().collect()))),
+        ],
+        trust(false, &["max", "min"]),
+    );
+    advs.push(vec![Adv::PermDup]);
+    b.add(
+        "x_max_min_tick",
+        &["i64"],
+        &[],
+        &[
+            ("i64", PerTickSeq, None, Ref::PerTick(|s, n| per_tick::<i64, i64>(s, n, |b| b.iter().cloned().max().into_iter().collect()))),
+            ("i64", PerTickSeq, None, Ref::PerTick(|s, n| per_tick::<i64, i64>(s, n, |b| b.iter().cloned().min().into_iter().collect()))),
+        ],
+        trust(true, &["max", "min"]),
+    );
+    advs.push(vec![Adv::PermDup]);
+    b.add(
+        "x_count_top",
+        &["i64"],
+        &[],
+        &[("usize", Final, Some(Promise::MonoSingleton), Ref::Eventual(|f| enc(vec![ints(f, 0).len()])))],
+        trust(false, &["count"]),
+    );
+    advs.push(vec![Adv::Perm]);
+    b.add(
+        "x_count_tick",
+        &["i64"],
+        &[],
+        &[("usize", PerTickSeq, None, Ref::PerTick(|s, n| per_tick::<i64, usize>(s, n, |b| vec![b.len()])))],
+        trust(true, &["count"]),
+    );
+    advs.push(vec![Adv::Perm]);
+    b.add(
+        "x_first_last_top",
+        &["i64"],
+        &[],
+        &[
+            ("i64", Final, None, Ref::Eventual(|f| enc(ints(f, 0).first().cloned().into_iter().collect()))),
+            ("i64", Final, None, Ref::Eventual(|f| enc(ints(f, 0).last().cloned().into_iter().collect()))),
+        ],
+        trust(false, &["first", "last"]),
+    );
+    advs.push(vec![Adv::Stutter]);
+    b.add(
+        "x_first_last_tick",
+        &["i64"],
+        &[],
+        &[
+            ("i64", PerTickSeq, None, Ref::PerTick(|s, n| per_tick::<i64, i64>(s, n, |b| b.first().cloned().into_iter().collect()))),
+            ("i64", PerTickSeq, None, Ref::PerTick(|s, n| per_tick::<i64, i64>(s, n, |b| b.last().cloned().into_iter().collect()))),
+        ],
+        trust(true, &["first", "last"]),
+    );
+    advs.push(vec![Adv::Stutter]);
+    b.add(
+        "x_is_empty_tick",
+        &["i64"],
+        &[],
+        &[("bool", PerTickSeq, None, Ref::PerTick(|s, n| per_tick::<i64, bool>(s, n, |b| vec![!b.iter().any(|x| *x >= 2)])))],
+        trust(true, &["is_empty"]),
+    );
+    advs.push(vec![Adv::PermDup]);
+    b.add(
+        "x_repeat_with_keys_tick",
+        &["(i64,i64)", "i64"],
+        &[],
+        &[(
+            "(i64,i64)",
+            PerTickKeyed,
+            None,
+            Ref::PerTick(|s, n| {
+                let ks = batches::<(i64, i64)>(s, 0, n);
+                let vs = batches::<i64>(s, 1, n);
+                (0..n)
+                    .map(|t| {
+                        let mut out = vec![];
+                        for k in keys_in_order(&ks[t]) {
+                            for v in &vs[t] {
+                                out.push((k, *v));
+                            }
+                        }
+                        enc(out)
+                    })
+                    .collect()
+            }),
+        )],
+        trust(true, &["repeat_with_keys", "keyed"]),
+    );
+    advs.push(vec![Adv::KeyInterleave, Adv::Fixed]);
+    b.add(
+        "x_noop_casts_top",
+        &["i64"],
+        &[],
+        &[
+            ("i64", Seq, None, Ref::Eventual(|f| enc(ints(f, 0)))),
+            ("i64", Bag, None, Ref::Eventual(|f| enc(ints(f, 0)))),
+            (
+                "i64",
+                Bag,
+                None,
+                Ref::Eventual(|f| {
+                    let mut seen = vec![];
+                    for x in ints(f, 0) {
+                        if !seen.contains(&x) {
+                            seen.push(x);
+                        }
+                    }
+                    enc(seen)
+                }),
+            ),
+            ("i64", Seq, None, Ref::Eventual(|f| enc(ints(f, 0)))),
+        ],
+        trust(false, &["weaken", "make_totally_ordered", "make_exactly_once"]),
+    );
+    advs.push(vec![Adv::Fixed]);
+    b.add(
+        "x_keyed_noop_casts_top",
+        &["(i64,i64)"],
+        &[],
+        &[
+            ("(i64,i64)", KeyedSeq, None, Ref::Eventual(|f| enc(kvs(f, 0)))),
+            ("(i64,i64)", Bag, None, Ref::Eventual(|f| enc(kvs(f, 0)))),
+            (
+                "(i64,i64)",
+                Bag,
+                None,
+                Ref::Eventual(|f| {
+                    let mut seen: Vec<(i64, i64)> = vec![];
+                    for x in kvs(f, 0) {
+                        if !seen.contains(&x) {
+                            seen.push(x);
+                        }
+                    }
+                    enc(seen)
+                }),
+            ),
+        ],
+        trust(false, &["weaken", "keyed"]),
+    );
+    advs.push(vec![Adv::KeyInterleave]);
+    b.add(
+        "x_value_counts_top",
+        &["(i64,i64)"],
+        &[],
+        &[("(i64,usize)", Final, Some(Promise::MonoValue), Ref::Eventual(|f| enc(per_key(&kvs(f, 0), |_, vs| vec![vs.len()]))))],
+        trust(false, &["value_counts", "keyed"]),
+    );
+    advs.push(vec![Adv::Perm]);
+    b.add(
+        "x_value_counts_tick",
+        &["(i64,i64)"],
+        &[],
+        &[(
+            "(i64,usize)",
+            PerTickBag,
+            None,
+            Ref::PerTick(|s, n| batches::<(i64, i64)>(s, 0, n).iter().map(|b| enc(per_key(b, |_, vs| vec![vs.len()]))).collect()),
+        )],
+        trust(true, &["value_counts", "keyed"]),
+    );
+    advs.push(vec![Adv::Perm]);
+    b.add(
+        "x_ks_into_singleton_top",
+        &["(i64,i64)"],
+        &[],
+        &[
+            ("Vec<(i64,i64)>", Final, None, Ref::Eventual(|f| enc(vec![sorted_map(per_key(&kvs(f, 0), |_, vs| vec![vs[0]]))]))),
+            (
+                "Vec<(i64,i64)>",
+                Final,
+                None,
+                Ref::Eventual(|f| enc(vec![sorted_map(per_key(&kvs(f, 0), |_, vs| vec![vs.iter().fold(0i64, |a, v| a * 2 + v)]))])),
+            ),
+        ],
+        trust(false, &["into_singleton", "keyed"]),
+    );
+    advs.push(vec![Adv::KeyInterleave]);
+    b.add(
+        "x_ks_into_singleton_tick",
+        &["(i64,i64)"],
+        &[],
+        &[
+            (
+                "Vec<(i64,i64)>",
+                PerTickSeq,
+                None,
+                Ref::PerTick(|s, n| batches::<(i64, i64)>(s, 0, n).iter().map(|b| enc(vec![sorted_map(per_key(b, |_, vs| vec![vs[0]]))])).collect()),
+            ),
+            (
+                "usize",
+                PerTickSeq,
+                None,
+                Ref::PerTick(|s, n| batches::<(i64, i64)>(s, 0, n).iter().map(|b| enc(vec![keys_in_order(b).len()])).collect()),
+            ),
+        ],
+        trust(true, &["into_singleton", "key_count", "keyed"]),
+    );
+    advs.push(vec![Adv::KeyInterleave]);
+    fn max_key(kv: &[(i64, i64)]) -> Vec<(i64, i64)> {
+        let firsts = per_key(kv, |_, vs| vec![vs[0]]);
+        firsts.into_iter().max_by_key(|(k, _)| *k).into_iter().collect()
+    }
+    b.add(
+        "x_ks_get_max_key_top",
+        &["(i64,i64)"],
+        &[],
+        &[("(i64,i64)", Final, None, Ref::Eventual(|f| enc(max_key(&kvs(f, 0)))))],
+        trust(false, &["get_max_key", "keyed"]),
+    );
+    advs.push(vec![Adv::KeyInterleave]);
+    b.add(
+        "x_ks_get_max_key_tick",
+        &["(i64,i64)"],
+        &[],
+        &[("(i64,i64)", PerTickSeq, None, Ref::PerTick(|s, n| batches::<(i64, i64)>(s, 0, n).iter().map(|b| enc(max_key(b))).collect()))],
+        trust(true, &["get_max_key", "keyed"]),
+    );
+    advs.push(vec![Adv::KeyInterleave]);
+    for (i, a) in advs.into_iter().enumerate() {
+        // these programs are keyed by construction where the adversary says so
+        for (j, inp) in b.progs[start + i].spec.inputs.iter_mut().enumerate() {
+            inp.keyed = a.get(j) == Some(&Adv::KeyInterleave);
+        }
+        b.progs[start + i].adv = a;
+    }
 }
